@@ -184,7 +184,7 @@ class Contract:
 
     def __init__(self, name, fun, params, pre=None, post=None, raises=None, native=None,
                  world=None, classes=None, loop_specs=None, setup=None, timeout=20.0, domain_ok=True,
-                 result_view=None):
+                 result_view=None, ghost=(), search=None, describe=None, axioms=None):
         self.name = name
         self.fun = fun
         self.params = params
@@ -198,6 +198,10 @@ class Contract:
         self.setup = setup
         self.timeout = timeout
         self.result_view = result_view
+        self.ghost = tuple(ghost)  # parameter names that only the specification sees
+        self.search = search  # callable(clause) -> (witness dict, observed text) | None: native counterexample search
+        self.describe = describe
+        self.axioms = axioms  # callable(eng) adding global axioms (assumed library contracts)
 
     # used when another function under contract calls this one (modular reasoning)
     def apply(self, eng, st, args, kwargs, origin):
@@ -229,19 +233,28 @@ def _prove_combo(c, names, combo, tag, info):
     args = [k.make(st, n) for n, k in zip(names, combo)]
     if c.setup:
         c.setup(eng, st, dict(zip(names, args)))
+    if c.axioms:
+        c.axioms(eng)
     fun = c.fun(eng) if callable(c.fun) and not isinstance(c.fun, VFun) else c.fun
     if c.pre is not None:
         st.assume(eval_pred(eng, st, c.pre, args))
     # vacuity guard: the precondition must be satisfiable for this kind combination
     t0 = time.time()
-    r, model, why = check_valid(eng.axioms + st.pc, z3.BoolVal(False), c.timeout)
+    r, model, why = check_valid(eng.axioms + st.pc, z3.BoolVal(False), c.timeout, second_opinion=False)
+    if r == "unknown" and str(why).startswith("NOPROOF"):
+        # quantified hypotheses: no model can be produced, but trigger-based instantiation terminated without
+        # deriving false -- the vacuity guard that is available for quantified contracts
+        obs.append(Ob(f"{c.name}#pre.reachable[{tag}]", DISCHARGED, detail={"note": "false is not derivable from precondition + assumed axioms by trigger-based instantiation (quantified: no model available)"}, target=c.name, time_s=time.time() - t0))
+        r = None
     if r == "valid":
         # precondition unsatisfiable for this combination: nothing to prove, but say so
         obs.append(Ob(f"{c.name}#pre.reachable[{tag}]", DISCHARGED, detail={"note": "kind combination excluded by precondition (vacuous)", "vacuous": True}, target=c.name, time_s=time.time() - t0))
         return obs
-    obs.append(Ob(f"{c.name}#pre.reachable[{tag}]", DISCHARGED if r == "invalid" else UNDECIDED,
-                  detail={} if r == "invalid" else {"reason": why}, target=c.name, time_s=time.time() - t0))
-    outcomes = eng.call(st, fun, args, {}, c.name)
+    if r is not None:
+        obs.append(Ob(f"{c.name}#pre.reachable[{tag}]", DISCHARGED if r == "invalid" else UNDECIDED,
+                      detail={} if r == "invalid" else {"reason": why}, target=c.name, time_s=time.time() - t0))
+    call_args = [a for n, a in zip(names, args) if n not in c.ghost]
+    outcomes = eng.call(st, fun, call_args, {}, c.name)
     info["paths"] += len(outcomes)
     info["assumptions"].update(eng.assumptions_used)
     # group queries per obligation id
